@@ -46,9 +46,14 @@ static hwloc_bitmap_t gen_set_arg(Draw &d, hwloc_topology_t t, bool nodes, std::
   return s;
 }
 
+// (characters outside HWLOC_XML_CHAR_VALID are removed by the XML exporter by design, pitfall 9.27: harnesses that compare
+//  across an XML round trip set ops_xml_safe)
+static bool ops_xml_safe = false;
 static std::string gen_name(Draw &d) {
   static const char *names[] = {"m", "misc<&>", "a b", "x\"y'", "", "name-with-long-text-0123456789", "tab\there", "caf\xc3\xa9"};
-  return d.pick(names);
+  std::string s = d.pick(names);
+  if (ops_xml_safe && s == "caf\xc3\xa9") s = " lead&trail ";
+  return s;
 }
 
 static OpRes op_restrict(Case &c, Draw &d, hwloc_topology_t t) {
